@@ -139,6 +139,11 @@ impl PacketReceiver {
         self.base_id
     }
 
+    #[cfg(feature = "uflow_verif")]
+    pub fn verif_alloc(&self) -> usize {
+        self.assembly_window.verif_alloc()
+    }
+
     pub fn handle_datagram(&mut self, datagram: frame::Datagram) {
         let base_id = self.base_id;
         let channel_idx = datagram.channel_id as usize;
